@@ -12,19 +12,21 @@ Answer(ref, call) == ref[CHOOSE i \in DOMAIN ref : ref[i].call = call].digest
 
 HistoryOk(h) ==
   /\ \A i \in DOMAIN h.events : h.events[i].digest = Answer(h.reference, h.events[i].call)
+  \* calls that compare clones under other contexts / interleaved expressions with isolated fresh computations
+  /\ \A i \in DOMAIN h.events : h.events[i].consistent
   \* every thread logged exactly its program, in order
   /\ \A t \in DOMAIN h.skeleton :
         LET mine == SelectSeq(h.events, LAMBDA e : e.thread = t - 1)
         IN /\ Len(mine) = Len(h.skeleton[t])
            /\ \A k \in DOMAIN mine : mine[k].seq = k - 1 /\ mine[k].call = h.skeleton[t][k]
 
-FirstBad(h) == LET i == CHOOSE i \in DOMAIN h.events : h.events[i].digest # Answer(h.reference, h.events[i].call)
+FirstBad(h) == LET i == CHOOSE i \in DOMAIN h.events : h.events[i].digest # Answer(h.reference, h.events[i].call) \/ ~h.events[i].consistent
                IN [event |-> h.events[i], expected |-> Answer(h.reference, h.events[i].call)]
 Report(k) ==
   LET h == Rec[k] IN
   /\ PrintT(<<"STAT", ToJson([id |-> h.id, ok |-> HistoryOk(h), events |-> Len(h.events), threads |-> Len(h.skeleton)])>>)
   /\ (HistoryOk(h) \/ PrintT(<<"MISMATCH", ToJson([id |-> h.id, skeleton |-> h.skeleton,
-          bad |-> IF \E i \in DOMAIN h.events : h.events[i].digest # Answer(h.reference, h.events[i].call) THEN FirstBad(h)
+          bad |-> IF \E i \in DOMAIN h.events : h.events[i].digest # Answer(h.reference, h.events[i].call) \/ ~h.events[i].consistent THEN FirstBad(h)
                   ELSE [event |-> "program order", expected |-> ""]])>>))
 
 Init == l = 0
